@@ -195,9 +195,9 @@ Definition ex_oracles : toracles :=
                                           | 60%N :: c :: _ => AP_ok [c] None RLocal          (* <x...> *)
                                           | _ => AP_nobracket end;
                    o_ext := fun _ => Ext_ok 0 0 None; o_relay := 0%Z; o_mx := fun _ => 0;
-                   o_qq := fun _ => QQ_ok; o_databytes := 0%N; o_liphost := []; o_check2822 := false; o_authperm := false; o_auth := fun _ => Auth_multi; o_trace := fun _ _ _ _ _ _ => [67; 10]%N;
-              o_submission := false; o_subm_date := []; o_subm_stamp := []; o_msgidhost := [] |};
-     o_trace_tls := fun _ _ _ _ _ _ => [84; 10]%N; o_certfile := true; o_tlsinit := true; o_eat := 5 |}.
+                   o_qq := fun _ => QQ_ok; o_databytes := 0%N; o_liphost := []; o_check2822 := false; o_authperm := false; o_auth := fun _ => Auth_multi; o_trace := fun _ _ _ _ _ _ _ => [67; 10]%N;
+              o_submission := false; o_subm_date := []; o_subm_stamp := []; o_msgidhost := []; o_tls := false; o_tlsverify := TV_no |};
+     o_trace_tls := fun _ _ _ _ _ _ _ => [84; 10]%N; o_certfile := true; o_tlsinit := true; o_eat := 5 |}.
 Definition ehlo : bytes := [69;72;76;79;32;120;13;10]%N.
 Definition starttls : bytes := [83;84;65;82;84;84;76;83;13;10]%N.
 Definition mail (c : N) : bytes := [77;65;73;76;32;70;82;79;77;58;60;c;62;13;10]%N.
@@ -230,9 +230,9 @@ Definition ex_oracles_auth : toracles :=
                                           | _ => AP_nobracket end;
                    o_ext := fun _ => Ext_ok 0 0 None; o_relay := 0%Z; o_mx := fun _ => 0;
                    o_qq := fun _ => QQ_ok; o_databytes := 0%N; o_liphost := []; o_check2822 := false;
-                   o_authperm := true; o_auth := fun _ => Auth_ok [117%N]; o_trace := fun _ _ _ _ _ _ => [67; 10]%N;
-              o_submission := false; o_subm_date := []; o_subm_stamp := []; o_msgidhost := [] |};
-     o_trace_tls := fun _ _ _ _ _ _ => [84; 10]%N; o_certfile := true; o_tlsinit := true; o_eat := 5 |}.
+                   o_authperm := true; o_auth := fun _ => Auth_ok [117%N]; o_trace := fun _ _ _ _ _ _ _ => [67; 10]%N;
+              o_submission := false; o_subm_date := []; o_subm_stamp := []; o_msgidhost := []; o_tls := false; o_tlsverify := TV_no |};
+     o_trace_tls := fun _ _ _ _ _ _ _ => [84; 10]%N; o_certfile := true; o_tlsinit := true; o_eat := 5 |}.
 Definition ex_script_auth : script :=
   {| sc_first := [ehlo; [65;85;84;72;32;120;13;10]%N; starttls];
      sc_later := [(HsOk, [ehlo; mail 97; rcpt 98])];
